@@ -971,3 +971,46 @@ def run(ctx, which="C05"):
         ctx.violation({"kind": "proof-broken"}, {"broken": ctx.broken,
                       "note": "Props/%s.lean no longer checks against the regenerated Gen/ThreadSites.lean and no explored scenario fails an oracle" % which},
                       no_input=True)
+
+
+def batches_of_script(script):
+    out, cur = [], []
+    for l in script.splitlines():
+        w = l.split()
+        if not w:
+            continue
+        if w[0] == "go":
+            out.append(cur)
+            cur = []
+        elif w[0] == "t":
+            cur.append({"id": int(w[1]), "panic": w[2] == "panic", "d": int(w[3]), "class": int(w[4]), "action": w[5], "d2": int(w[6])})
+    return out
+
+
+def replay(ctx, rp):
+    """bin/check C05 --replay <file>: re-run the recorded script (with its fault injection) on the current tree"""
+    table, cfg = setup(ctx)
+    exe, err = build_probe(ctx, "dyn")
+    if exe is None:
+        print("probe build failed:\n" + err)
+        return 2
+    r = rp.get("replay", rp)
+    script, inject = r.get("script"), r.get("inject")
+    if not script:
+        print("replay file carries no script (a broken proof obligation, not a run)")
+        return 2
+    bs = batches_of_script(script)
+    run = run_probe(exe, script, inject=inject, timeout=watchdog_of(bs))
+    res, classes, e = process_run(run, bs, cfg)
+    model_verdicts(ctx, [it for it in res if not it.get("missing")])
+    rc = 0
+    for it in res:
+        if it.get("missing"):
+            print("batch %d: did not run%s" % (it["bno"], " (watchdog)" if run["timed_out"] else ""))
+            rc = 1
+            continue
+        why = check_model(it)
+        print("batch %d: judge=%s model=%s%s" % (it["bno"], it["judge"] or "ok", it.get("model", "")[:200], (" MODEL: " + why) if why else ""))
+        if it["judge"] or why:
+            rc = 1
+    return rc
